@@ -179,7 +179,7 @@ class Obligation:
             inst = T.instantiate_quantified(fs)
             fs += inst
             # nested quantifiers exposed by the first round
-            fs += T.instantiate_quantified(inst, cap=300)
+            pass
         fs += T.theory_axioms(fs, extra_trig=extra_trig)
         return fs
 
@@ -593,7 +593,7 @@ def _solve_one(args):
     except Exception as e:
         return (idx, "undecided", "none", time.time() - t0, None, f"encoding error: {type(e).__name__}: {e}")
     trig = _has_trig(fs)
-    short = min(4000, timeout_ms)
+    short = min(3000, timeout_ms)
     r, s = _z3_check(fs, short)
     attempts.append(f"z3={r}")
     if r == z3.unsat:
@@ -613,12 +613,29 @@ def _solve_one(args):
         fs = fst
     if model is None:
         try:
+            # 1. the ground part of the instantiated problem alone (quantified hypotheses dropped: sound for unsat).
+            #    Quantifier-free, so z3 runs its complete arithmetic procedures (integer / to_int reasoning is weak
+            #    next to quantifiers) and answers quickly either way.
+            fi = ob.formulas(extra_trig=trig, instantiate=True)
+            fg = [f for f in fi if T.quantifier_free(f)]
+            try:
+                r9, _ = _z3_check(T.abstract_nonlinear(fg), min(timeout_ms, 6000))
+            except z3.Z3Exception as e:
+                r9 = f"error({e})"
+            attempts.append(f"z3[inst-ground+nl-abstraction]={r9}")
+            if r9 == z3.unsat:
+                return (idx, "discharged", "z3+nl-abstraction", time.time() - t0, None, " ".join(attempts))
+            r8, _ = _z3_check(fg, min(timeout_ms, 6000))
+            attempts.append(f"z3[inst-ground]={r8}")
+            if r8 == z3.unsat:
+                return (idx, "discharged", "z3+instantiation", time.time() - t0, None, " ".join(attempts))
+            # 2. nonlinear abstraction of the full problem
             fa = T.abstract_nonlinear(fs)
             r3, _ = _z3_check(fa, min(timeout_ms, 15000))
             attempts.append(f"z3[nl-abstraction]={r3}")
             if r3 == z3.unsat:
                 return (idx, "discharged", "z3+nl-abstraction", time.time() - t0, None, " ".join(attempts))
-            fi = ob.formulas(extra_trig=trig, instantiate=True)
+            # 3. instances added to the full problem
             r6, _ = _z3_check(fi, min(timeout_ms, 10000))
             attempts.append(f"z3[inst]={r6}")
             if r6 == z3.unsat:
